@@ -98,7 +98,21 @@ def _one(ctx, i, rep=None):
         if a != b:
             # the recorded Arpeggio finding: a *rule* reached under two whitespace modes. A hit on a sub-expression
             # that textX shares between rules (none on the pinned tree) is not that mechanism.
-            key = 'memo-cache-ignores-ws-mode' if (ML.hits_other_ctx > 0 and not ML.hits_other_ctx_shared_nonroot) else None
+            key = None
+            if ML.hits_other_ctx > 0 and not ML.hits_other_ctx_shared_nonroot:
+                # explained-by test: the same memoized parse with the cache treated as keyed by the whitespace context
+                # too must give the memoization-off outcome
+                ML.clear()
+                ML.enabled = True
+                ML.context_keyed = True
+                try:
+                    c = P.textx_outcome(mm1, s)
+                finally:
+                    ML.enabled = False
+                    ML.context_keyed = False
+                ctx.count('context_keyed_reruns')
+                if c == a:
+                    key = 'memo-cache-ignores-ws-mode'
             ctx.violation(key, 'memoization off: %s, on: %s for input %r (cache hits %d, %d of them stored under another '
                           'whitespace context)' % (str(a)[:60], str(b)[:60], s[:50], ML.hits, ML.hits_other_ctx),
                           {'grammar': text, 'input': s, 'config': cfg, 'memo_off': repr(a)[:800], 'memo_on': repr(b)[:800]}, rep)
